@@ -86,9 +86,7 @@ def Spec.findTok (s : Spec) (t : Option Nat) : Option Lock :=
 
 def newExpiry (now dur old : Int) : Int := if 0 ≤ dur then now + dur else old
 
-def Spec.create (s : Spec) (now : Int) (rawRoot : Bytes) (zd : Bool) (dur : Int) : Spec × Res :=
-  let s := s.collect now
-  let root := slashCleanComps rawRoot
+def Spec.createCore (s : Spec) (now : Int) (root : Name) (zd : Bool) (dur : Int) : Spec × Res :=
   if s.locks.any (fun l => l.conflicts root zd) then (s, .errLocked)
   else
     ({ s with
@@ -96,8 +94,7 @@ def Spec.create (s : Spec) (now : Int) (rawRoot : Bytes) (zd : Bool) (dur : Int)
                                expiry := newExpiry now dur 0, held := false }]
         gen := s.gen + 1 }, .created s.gen)
 
-def Spec.refresh (s : Spec) (now : Int) (tok : Option Nat) (dur : Int) : Spec × Res :=
-  let s := s.collect now
+def Spec.refreshCore (s : Spec) (now : Int) (tok : Option Nat) (dur : Int) : Spec × Res :=
   match s.findTok tok with
   | none => (s, .errNoSuchLock)
   | some l =>
@@ -108,8 +105,7 @@ def Spec.refresh (s : Spec) (now : Int) (tok : Option Nat) (dur : Int) : Spec ×
             { x with duration := dur, expiry := newExpiry now dur x.expiry } else x) },
        .refreshed l.root l.zeroDepth dur)
 
-def Spec.unlock (s : Spec) (now : Int) (tok : Option Nat) : Spec × Res :=
-  let s := s.collect now
+def Spec.unlockCore (s : Spec) (tok : Option Nat) : Spec × Res :=
   match s.findTok tok with
   | none => (s, .errNoSuchLock)
   | some l =>
@@ -135,8 +131,7 @@ def Spec.lookupName (s : Spec) (raw : Bytes) (toks : List (Option Nat)) : Option
 def setHeld (locks : List Lock) (toks : List Nat) (v : Bool) : List Lock :=
   locks.map (fun x => if toks.contains x.token then { x with held := v } else x)
 
-def Spec.confirm (s : Spec) (now : Int) (n0 n1 : Bytes) (toks : List (Option Nat)) : Spec × Res :=
-  let s := s.collect now
+def Spec.confirmCore (s : Spec) (n0 n1 : Bytes) (toks : List (Option Nat)) : Spec × Res :=
   match s.lookupName n0 toks with
   | none => (s, .errConfirmationFailed)
   | some l0 =>
@@ -154,6 +149,16 @@ def Spec.release (s : Spec) (k : Nat) : Spec × Res :=
   | some (some hs) =>
     ({ s with locks := setHeld s.locks (hs.map (·.1)) false, holds := s.holds.set k none }, .ok)
   | _ => (s, .errNoHold)
+
+/-- Every interface method first runs `collectExpiredNodes(now)`. -/
+def Spec.create (s : Spec) (now : Int) (rawRoot : Bytes) (zd : Bool) (dur : Int) : Spec × Res :=
+  (s.collect now).createCore now (slashCleanComps rawRoot) zd dur
+def Spec.refresh (s : Spec) (now : Int) (tok : Option Nat) (dur : Int) : Spec × Res :=
+  (s.collect now).refreshCore now tok dur
+def Spec.unlock (s : Spec) (now : Int) (tok : Option Nat) : Spec × Res :=
+  (s.collect now).unlockCore tok
+def Spec.confirm (s : Spec) (now : Int) (n0 n1 : Bytes) (toks : List (Option Nat)) : Spec × Res :=
+  (s.collect now).confirmCore n0 n1 toks
 
 def Spec.step (s : Spec) : Op → Spec × Res
   | .create now root zd dur => s.create now root zd dur
@@ -250,9 +255,7 @@ def MemLS.nodeOfToken (m : MemLS) (t : Option Nat) : Option Node :=
     | none => none
     | some p => findNode m.byName p.2
 
-def MemLS.create (m : MemLS) (now : Int) (rawRoot : Bytes) (zd : Bool) (dur : Int) : MemLS × Res :=
-  let m := m.collect now
-  let name := slashCleanComps rawRoot
+def MemLS.createCore (m : MemLS) (now : Int) (name : Name) (zd : Bool) (dur : Int) : MemLS × Res :=
   if !m.canCreate name zd then (m, .errLocked)
   else
     let bn := (walk name).foldl incRef m.byName
@@ -262,8 +265,7 @@ def MemLS.create (m : MemLS) (now : Int) (rawRoot : Bytes) (zd : Bool) (dur : In
     ({ m with byName := bn, byToken := m.byToken ++ [(m.gen, name)], gen := m.gen + 1 },
      .created m.gen)
 
-def MemLS.refresh (m : MemLS) (now : Int) (tok : Option Nat) (dur : Int) : MemLS × Res :=
-  let m := m.collect now
+def MemLS.refreshCore (m : MemLS) (now : Int) (tok : Option Nat) (dur : Int) : MemLS × Res :=
   match m.nodeOfToken tok with
   | none => (m, .errNoSuchLock)
   | some n =>
@@ -274,8 +276,7 @@ def MemLS.refresh (m : MemLS) (now : Int) (tok : Option Nat) (dur : Int) : MemLS
                    inHeap := decide (0 ≤ dur) }) },
        .refreshed n.name n.zeroDepth dur)
 
-def MemLS.unlock (m : MemLS) (now : Int) (tok : Option Nat) : MemLS × Res :=
-  let m := m.collect now
+def MemLS.unlockCore (m : MemLS) (tok : Option Nat) : MemLS × Res :=
   match m.nodeOfToken tok with
   | none => (m, .errNoSuchLock)
   | some n => if n.held then (m, .errLocked) else (m.remove n.name, .ok)
@@ -306,8 +307,7 @@ def holdNode (bn : List Node) (a : Name) : List Node :=
 def unholdNode (bn : List Node) (a : Name) : List Node :=
   updNode bn a (fun n => { n with held := false, inHeap := decide (0 ≤ n.duration) })
 
-def MemLS.confirm (m : MemLS) (now : Int) (n0 n1 : Bytes) (toks : List (Option Nat)) : MemLS × Res :=
-  let m := m.collect now
+def MemLS.confirmCore (m : MemLS) (n0 n1 : Bytes) (toks : List (Option Nat)) : MemLS × Res :=
   match m.lookupName n0 toks with
   | none => (m, .errConfirmationFailed)
   | some x0 =>
@@ -326,6 +326,16 @@ def MemLS.release (m : MemLS) (k : Nat) : MemLS × Res :=
   | some (some hs) =>
     ({ m with byName := hs.foldl unholdNode m.byName, holds := m.holds.set k none }, .ok)
   | _ => (m, .errNoHold)
+
+/-- Every interface method first runs `collectExpiredNodes(now)`. -/
+def MemLS.create (m : MemLS) (now : Int) (rawRoot : Bytes) (zd : Bool) (dur : Int) : MemLS × Res :=
+  (m.collect now).createCore now (slashCleanComps rawRoot) zd dur
+def MemLS.refresh (m : MemLS) (now : Int) (tok : Option Nat) (dur : Int) : MemLS × Res :=
+  (m.collect now).refreshCore now tok dur
+def MemLS.unlock (m : MemLS) (now : Int) (tok : Option Nat) : MemLS × Res :=
+  (m.collect now).unlockCore tok
+def MemLS.confirm (m : MemLS) (now : Int) (n0 n1 : Bytes) (toks : List (Option Nat)) : MemLS × Res :=
+  (m.collect now).confirmCore n0 n1 toks
 
 def MemLS.step (m : MemLS) : Op → MemLS × Res
   | .create now root zd dur => m.create now root zd dur
